@@ -840,7 +840,15 @@ def run_client(ctx, real):
                      % (zll(known), len(got) if o['exc'] in ('EOFError', 'UnpicklingError') else c['k'],
                         zll(c['chunks']) if c['chunks'] else '(@nil (list Z))'))
         idx.append(('recv', canon))
-    res = ctx.coq_eval(['DV.Model.Frame', 'DV.Model.Client'], exprs, chunk=150)
+    # sends are few (list Z each); the receives are batched 60 per Eval
+    is_send = [k == 'send' for k, _ in idx]
+    rexprs = [e for e, s in zip(exprs, is_send) if not s]
+    batched = ['[' + '; '.join(rexprs[i:i + 60]) + ']' for i in range(0, len(rexprs), 60)]
+    rres = [x for b in ctx.coq_eval(['DV.Model.Frame', 'DV.Model.Client'], batched, chunk=5) for x in b]
+    sres = ctx.coq_eval(['DV.Model.Frame', 'DV.Model.Client'], [e for e, s in zip(exprs, is_send) if s])
+    assert len(rres) == len(rexprs)
+    rres, sres = iter(rres), iter(sres)
+    res = [next(sres) if s else next(rres) for s in is_send]
     mism = None
     keys = []
     for c, (kind, want), m in zip(cases, idx, res):
